@@ -110,7 +110,13 @@ func (exec *Executor) execArrayIndex(
 		return res, resErr
 	}
 
-	// In strict mode we accept only arrays.
+	// In strict mode we accept only arrays, except below .**, which visits
+	// items of every kind and skips those an accessor does not apply to.
+	// https://github.com/postgres/postgres/blob/REL_18_3/src/backend/utils/adt/jsonpath_exec.c#L943
+	if exec.ignoreStructuralErrors {
+		return statusNotFound, nil
+	}
+
 	return exec.returnVerboseError(fmt.Errorf(
 		"%w: jsonpath array accessor can only be applied to an array",
 		ErrVerbose,
